@@ -871,6 +871,14 @@ void oracle_c13_addrs(World &w, const History &)
         w.violate("C13:non-dns:set-mismatch", fmt("lookup of %s (family %d): returned { %s} but the hosts file / literal rule gives { %s}", r.name.c_str(), r.family, a.c_str(), b.c_str()));
       } else
         w.W("c13_non_dns_checked");
+      // the service's port is applied to hosts-file, literal and loopback answers just as to DNS answers
+      for (auto &a : t.addrs)
+        if (r.kind == 6 && !r.service.empty()) {
+          if (a.port != atoi(r.service.c_str()))
+            w.violate("C13:port:not-applied", fmt("service %s requested for %s (answered without DNS) but the address carries port %d", r.service.c_str(), r.name.c_str(), a.port));
+          else
+            w.W("c13_non_dns_port_checked");
+        }
       continue;
     }
     if (r.kind == 7) {
